@@ -573,7 +573,11 @@ func (e *Env) observe(ctx context.Context, command bool) *CtxObs {
 		id := connID(ctx)
 		e.mu.Lock()
 		seen := false
-		for _, c := range e.ctxs {
+		from := 0
+		if len(e.ctxs) > 512 {
+			from = len(e.ctxs) - 512 // (bounded look-back keeps long sessions linear)
+		}
+		for _, c := range e.ctxs[from:] {
 			if c.conn != id {
 				continue
 			}
